@@ -113,10 +113,11 @@ class NamespaceFunction(Namespace[symtable.Function]):
             self.symt.get_frees(),
             self.symt.get_nonlocals(),
         ):
-            if self.is_method and nonlocal_free == "__class__":
-                # methods may have implicit reference the __class__ (PEP-3135)
-                # which is not need here
-                self.zero_arg_super_used = True
+            if nonlocal_free == "__class__":
+                # scopes inside a class may have an implicit reference to
+                # __class__ (PEP-3135), it belongs to the class, not to a function
+                if self.is_method:
+                    self.zero_arg_super_used = True
                 continue
 
             for outer in reversed(stack):
@@ -224,6 +225,9 @@ class NamespaceClass(Namespace[symtable.Class]):
             if not (symbol.is_nonlocal() or symbol.is_free()):
                 continue
             nonlocal_free: str = symbol.get_name()
+            if nonlocal_free == "__class__":
+                # implicit reference to the __class__ of an enclosing class
+                continue
             # treat 'free's as 'nonlocal's
             for outer in reversed(stack):
                 if isinstance(outer, NamespaceClass):
